@@ -168,6 +168,9 @@ def c07(ctx, rep):
     # the secret stage runs whenever the caller asked for it, whatever else was asked for
     from .checks_pipe import c19 as _c19
     import_clauses(ctx, rep, "C07", "C19", _c19, ("C19.binding", "C19.options-not-rewritten"))
+    # every file that is written is written from its input by this run (a kept older output may hold the secrets)
+    from .checks_pipe import c16 as _c16
+    import_clauses(ctx, rep, "C07", "C16", _c16, ("C16.one-io-per-file", "C16.opens-the-pair", "C16.work-inside-try"), required=False)
 
 
 def _one_lookup_per_run(ctx, rep, cl):
@@ -233,7 +236,7 @@ def c08(ctx, rep):
     c18(ctx, sub, with_k3=False)
     for o in sub.obligations:
         cn = o["clause"].split(".", 1)[1]
-        if cn in ("decode-prelude", "decode-row", "decode-chain", "valid-alphabet", "valid-min-length", "validated-before-tables", "refusal", "gap", "gap-decode-value", "gap-decode-guard", "alphabet-distinct", "alpha-num-inverse", "extra-total", "weights-mixed-radix", "weights-cover-bytes", "encode-greedy", "encode-ring", "encode-row", "encode-chain", "encode-prefix", "encode-all-chars", "decode-result"):
+        if cn in ("decode-prelude", "decode-row", "decode-chain", "valid-alphabet", "valid-min-length", "validated-before-tables", "validated-before-indexing", "refusal", "gap", "gap-decode-value", "gap-decode-guard", "alphabet-distinct", "alpha-num-inverse", "extra-total", "weights-mixed-radix", "weights-cover-bytes", "encode-greedy", "encode-ring", "encode-row", "encode-chain", "encode-prefix", "encode-all-chars", "decode-result"):
             rep.ob("C08.codec." + cn, o["construct"], o["ok"], o["detail"], o["where"], o.get("witness"), key="C08.codec.%s|%s" % (cn, o["construct"]))
 
 
@@ -526,6 +529,13 @@ def c10(ctx, rep):
                             for s in subterms(post_):
                                 if s[0] == "comp" and s not in srcs:
                                     srcs.append(s)
+            # ... and ALL of them: what is returned is the collection that was built (or an order/kind-changing copy), never a slice or a filtered part
+            whole = base
+            while M.is_call(whole) and whole[1] in (("builtin", "sorted"), ("builtin", "set"), ("builtin", "frozenset"), ("builtin", "list"), ("builtin", "tuple")) and len(whole[2]) == 1:
+                whole = strip_mut(whole[2][0])
+            complete = whole[0] in ("loopout", "comp", "carried", "set", "list") or (whole[0] == "binop" and whole[1] == "|")
+            rep.ob("C10.skip-set-complete", f_c.name, complete, "returns %s; expected the whole collection built from the reserved words (a slice or a part of it leaves reserved tokens unprotected)" % show(r)[:120], W(f_c, path.result[2]),
+                   key="C10.skip-set-complete|_generate_conflicting_reserved_word_list")
             ok = bool(srcs) and all(len(s[4]) == 1 and s[4][0][1] == ("attr", SELF, "reserved_words") and s[3] == s[4][0][0] for s in srcs)
             conds_ok = bool(srcs) and all(len(s[4][0][2]) == 1 and s[4][0][2][0][0] == "compare" and s[4][0][2][0][1] == ("in",) and s[4][0][2][0][2][1] == s[4][0][0] for s in srcs)
             rep.ob("C10.skip-set-subset-of-reserved", f_c.name, ok and conds_ok, "skip set elements: %s; expected reserved words (only) that contain a listed word" % [show(s)[:100] for s in srcs], W(f_c), key="C10.skip-set-subset-of-reserved|_generate_conflicting_reserved_word_list")
@@ -627,6 +637,8 @@ def c10(ctx, rep):
         if o["clause"] in ("C10.line-shape", "C10.replacement-value"):
             rep.ob(o["clause"], o["construct"], o["ok"], o["detail"], o["where"], o.get("witness"), key="%s|%s" % (o["clause"], o["construct"]))
     from .checks_pipe import import_clauses, c19 as _c19
+    from .checks_pipe import line_loop_rules as _llr10
+    _llr10(ctx, rep, "C10")  # "no listed word occurs anywhere in the output": the stage sees every line whole (a word cut in two by chunked reading matches nothing)
     import_clauses(ctx, rep, "C10", "C19", _c19, ("C19.list-options",))  # "no listed word survives": the lists reach the stage as typed (split on ',' only)
     rep.ob("C10.reserved-secret-unchanged", "_anonymize_value", n_res >= 1, "a secret value that is a reserved word is returned unchanged (paths: %d)" % n_res, W(av.fn), key="C10.reserved-secret-unchanged|_anonymize_value")
     # wiring + stage order
